@@ -230,6 +230,17 @@ Definition handler_owner_guarded (n : string) : bool :=
   existsb (fun m => String.eqb (mt_handler m) n && has_owner_guard m) msg_types.
 Definition position_handler_names : list string := map mt_handler position_msgs.
 
+(* the handlers whose regenerated row no longer passes a table check: when a table theorem breaks,
+   the directed search of bin/check concentrates the harness on these (runner entries C12-focus /
+   C14-focus print them, bin/props.d/C1x.py hands them to the harness as VERIF_FOCUS) *)
+Definition c12_broken_rows : list string :=
+  map mt_handler (filter (fun m => negb (has_owner_guard m)) position_msgs).
+Definition c14_broken_rows : list string :=
+  filter (fun n => negb (rejects_under_breaker n)) breaker_scope ++
+  map h_name (filter (fun h => negb (esm_guarded h)) esm_mint_scope) ++
+  (if c14_cooloff_check then [] else ["vault.MsgWithdraw"]) ++
+  map h_name (filter (fun h => negb (price_fail_closed h)) price_scope).
+
 (* property predicates, evaluated by the runner on the IMPLEMENTATION's observations *)
 (* C12 owners: a message naming a position id and signed by a non-owner must not succeed; a
    message acting on "the signer's own" records (no id) and signed by an account that owns none
